@@ -511,7 +511,7 @@ func c16Run(b core.Batch, r *core.Recorder) {
 func c16Plan(tier string, seed int64) []core.Batch {
 	nf, nw, parts := 12000, 250, 4
 	if tier == "thorough" {
-		nf, nw, parts = 400000, 4000, 12
+		nf, nw, parts = 600000, 15000, 12
 	}
 	var bs []core.Batch
 	for p := 0; p < parts; p++ {
@@ -533,6 +533,6 @@ func init() {
 		Plan:        c16Plan,
 		Run:         c16Run,
 		Parallel:    6,
-		Floors:      map[string]map[string]int64{"quick": {"wire_cases": 1500, "wire_answered": 800}, "thorough": {"wire_cases": 25000, "wire_answered": 12000}},
+		Floors:      map[string]map[string]int64{"quick": {"wire_cases": 1500, "wire_answered": 800}, "thorough": {"wire_cases": 100000, "wire_answered": 50000}},
 	})
 }
